@@ -418,6 +418,10 @@ func (ex *Executor) store(st *State, p Ptr, v Value, T types.Type) {
 	if p.isNil() {
 		ex.require(st, ex.tt.False, "nil pointer dereference")
 	}
+	if ex.nInitObjs > 0 && p.obj > 0 && p.obj < ex.nInitObjs {
+		// package-level state is written after initialisation: instances are not independent
+		ex.recordViolation(st, "shared-state: a package-level variable ("+st.obj(p.obj).label+") is written after package initialisation [C13]", st.model)
+	}
 	cells := ex.flatten(v, T, nil)
 	n := len(cells)
 	p, cands := ex.resolve(st, p, n)
